@@ -228,3 +228,40 @@ Definition receive_abs (m : rmode) (d : differ) (A B : list entry) : dstate :=
      ds_notifs := map (notif_of (src_of B) H hdr) done; ds_changes := done; ds_err := e |}.
 
 End Receive.
+
+(* ---------------------------------------------------------------- hypotheses of the theorems *)
+(* a hard-link entry names an earlier regular entry of the same listing with the same bytes *)
+Definition links_ok (B : list entry) : Prop :=
+  forall sb bb, In (sb, bb) B -> is_hardlink sb = true ->
+  exists st bt, In (st, bt) B /\ st_path st = st_linkname sb /\
+                compare_path (st_path st) (st_path sb) = Lt /\ is_reg st = true /\ bt = bb.
+
+(* same identity key => same bytes (regular files and hard links) *)
+Definition identity_faithful (d : differ) (A B : list entry) : Prop :=
+  forall sa ba sb bb, In (sa, ba) A -> In (sb, bb) B -> st_path sa = st_path sb ->
+  same_file d sa sb = true -> is_reg sb = true -> ba = bb.
+
+(* executable forms, for the satisfiability examples *)
+Definition links_ok_b (B : list entry) : bool :=
+  forallb (fun e => negb (is_hardlink (fst e)) ||
+     existsb (fun t => bytes_eqb (st_path (fst t)) (st_linkname (fst e))
+                       && path_ltb (st_path (fst t)) (st_path (fst e))
+                       && is_reg (fst t) && bytes_eqb (snd t) (snd e)) B) B.
+Definition identity_faithful_b (d : differ) (A B : list entry) : bool :=
+  forallb (fun ea => forallb (fun eb =>
+     negb (bytes_eqb (st_path (fst ea)) (st_path (fst eb))) || negb (same_file d (fst ea) (fst eb))
+     || negb (is_reg (fst eb)) || bytes_eqb (snd ea) (snd eb)) B) A.
+
+(* what "the destination shows the source's entry" means: same identity key, and the same
+   bytes for a regular file / hard link *)
+Definition view_equiv (o : option dentry) (e : option entry) : Prop :=
+  match o, e with
+  | None, None => True
+  | Some x, Some (sb, bb) =>
+      same_file DMetadata (de_stat x) sb = true /\ (is_reg sb = true -> de_bytes x = bb)
+  | _, _ => False
+  end.
+
+(* p is listed on both sides with the same identity key *)
+Definition unchanged (d : differ) (A B : list entry) (p : bytes) : Prop :=
+  exists a b, In a (map fst A) /\ In b (map fst B) /\ st_path a = p /\ st_path b = p /\ same_file d a b = true.
